@@ -178,7 +178,7 @@ async fn run_case(dir: PathBuf, ops: Vec<String>) -> Vec<String> {
                         let wb = handles[h].clone();
                         let a = |i: usize| unhex(t[i]);
                         let opt = |i: usize| if t[i] == "-" { None } else { Some(unhex(t[i])) };
-                        let tmo = Duration::from_millis(1500);
+                        let tmo = Duration::from_secs(15);      // (under load an answer may take long; a call that never resolves is what is reported)
                         let fut = async {
                             match t[2] {
                                 "set" => res_str(wb.set_generic(a(3), json_of(t[4])).await, |_| "ok".into()),
@@ -324,8 +324,18 @@ async fn run_case(dir: PathBuf, ops: Vec<String>) -> Vec<String> {
                         if ok { "ok".to_owned() } else { "err".to_owned() }
                     }
                     "sleep" => {
+                        // sleep <ms> [<n>]: at least <ms>; with <n>, until n set / publish messages have left the library since the
+                        // previous step (the sleeping tasks of the buffer wake up late under load), 20 s at most
                         strip = true;
                         tokio::time::sleep(Duration::from_millis(t[1].parse().expect("ms"))).await;
+                        if let Some(n) = t.get(2).and_then(|x| x.parse::<usize>().ok()) {
+                            let start = tokio::time::Instant::now();
+                            loop {
+                                let sent = { let l = log.lock().expect("log"); l[seen..].iter().filter(|(_, d, line)| *d == 'C' && (line.starts_with("{\"set\"") || line.starts_with("{\"publish\""))).count() };
+                                if sent >= n || start.elapsed() > Duration::from_secs(20) { break; }
+                                tokio::time::sleep(Duration::from_millis(20)).await;
+                            }
+                        }
                         "ok".to_owned()
                     }
                     other => panic!("unknown op {other}"),
@@ -349,8 +359,12 @@ async fn run_case(dir: PathBuf, ops: Vec<String>) -> Vec<String> {
                 let new: Vec<(usize, char, String)> = { let l = log.lock().expect("log"); l[seen..].to_vec() };
                 seen += new.len();
                 let mut msgs: Vec<String> = new.iter().map(|(c, d, l)| format!("{c}:{d}>{}", canon_msg(l, &cids, strip))).collect();
-                if strip {
+                if strip && matches!(t[0], "par" | "parspub") {
                     msgs.sort();
+                } else if strip {
+                    // buffer steps (lover, sleep): ids stripped, the order on the wire kept (per direction) -- the oracle reads the
+                    // order in which the values of one key were sent off it; the comparison with the model sorts
+                    msgs.sort_by_key(|m| m.contains(":S>") as u8);
                 } else {
                     // keep the order per connection and direction, group by connection
                     msgs.sort_by_key(|m| (m.split(':').next().unwrap_or("").parse::<usize>().unwrap_or(0), m.contains(":S>") as u8));
